@@ -90,7 +90,23 @@ def const_str_dict(fi: FuncInfo):
 
 # ------------------------------------------------------------------- C08
 def tag_table(res: CheckResult, prog: Program, schema):
-    """TAG-TABLE: keys of the tag->class table = documented elements; each class's base_tag_name literal = its key."""
+    """TAG-TABLE / EA-TABLE are decided by interpretation (rules_table); the structural reading of the two dict
+    displays below is the fall-back."""
+    from . import rules_table
+    tmp = CheckResult(res.prop, res.tier)
+    try:
+        rules_table.table_rules(tmp, prog)
+        for o in tmp.obligations:
+            res.rules[o.rule] = tmp.rules[o.rule]
+            res.add(o.rule, o.where, o.construct, o.verdict == 'DISCHARGED', o.detail, o.file, o.line)
+        res.extra['table_rules_method'] = 'abstract interpretation of MosFile.from_string on one harness document per table row'
+        return
+    except AnalysisError as e:
+        res.extra['table_rules_method'] = f'structural reading of the dict displays (interpretation not possible: {e})'
+    _tag_table_structural(res, prog, schema)
+
+
+def _tag_table_structural(res: CheckResult, prog: Program, schema):
     from .harness import base_tag_literal
     res.rules['TAG-TABLE'] = 'the tag -> class table of MosFile._classify has exactly the 16 documented message elements and maps each to the class whose base_tag_name is that tag'
     fi = prog.func('MosFile._classify')
@@ -124,6 +140,8 @@ def tag_table(res: CheckResult, prog: Program, schema):
 
 
 def ea_table(res: CheckResult, prog: Program, schema):
+    if str(res.extra.get('table_rules_method', '')).startswith('abstract'):
+        return          # decided together with TAG-TABLE
     res.rules['EA-TABLE'] = 'the (operation, target has itemID, source has itemID) -> class table equals the MOS roElementAction table'
     fi = prog.func('ElementAction._classify')
     tables = [d for d in const_str_dict(fi) if all(isinstance(k, ast.Tuple) and len(k.elts) == 3 and all(isinstance(x, ast.Constant) for x in k.elts) for k in d.keys)]
